@@ -15,7 +15,8 @@ RULE = (
     "(type flip bool/int/float/str, date<->datetime at midnight, naive<->aware, list reorder, changed/added context arg). Oracles: all presentations "
     "give one arg_hash and one stored result (body runs once); arg_hash == an independent implementation of the documented algorithm "
     "(typed canonical JSON, sorted keys, SHA-256); what the body received re-hashes to the same key; the mutated binding is a miss and has a "
-    "different hash iff its canonical form differs. Non-trivial = at least two genuinely different presentations, or a mutation differing only "
+    "different hash iff its canonical form differs; for a third of the cases the binding is also called from inside another memento function (caller with/without context args; nested call inheriting, "
+    "attaching an empty dict, or attaching its own dict) and the key recorded in the caller's invocations must equal the documented key under the effective context, and a direct call under that context is then served. Non-trivial = at least two genuinely different presentations, or a mutation differing only "
     "in type/zone/context; distinct by (function, value type shapes, presentation shapes, mutation kind)."
 )
 ASSUMPTIONS = [
@@ -53,7 +54,10 @@ def _permute_dicts(v, flip):
     return v
 
 
-def _present(case, p, binding_vals, ctx_vals):
+_nest_k = [0]
+
+
+def _present(case, p, binding_vals, ctx_vals, attach=True):
     """Build (callable, pos args, kwargs) for presentation p."""
     fn = afuncs.FUNCS[case["fn"]]
     pos_params = afuncs.SIGS[case["fn"]][0]
@@ -74,7 +78,7 @@ def _present(case, p, binding_vals, ctx_vals):
     used.update(pos_params[cursor:cursor + npos])
     rest = [k for k in p["kworder"] if k not in used]
     kw = {k: vals[k] for k in rest}
-    if ctx_vals is not None:
+    if ctx_vals is not None and attach:
         f = f.with_context_args(_permute_dicts(ctx_vals, flip))
     return f, pos, kw
 
@@ -172,15 +176,67 @@ def execute(case, scratch):
             if not same and not runs:
                 out.violation("call with a different binding (%s vs %s, mutation %s) was served from the store" % (
                     canon2[:200], want_canon[:200], mut_kind), symptom="different-binding-shared-result", mutation=mut_kind)
-        out.nontrivial = len(shapes) >= 2 or mut_kind in ("type-flip", "date-datetime", "naive-aware", "ctx")
-        out.labels = ["fn:" + case["fn"], "npres:%d" % len(case["presentations"])] + \
+        # the same binding called from inside another memento function: the key includes the context arguments in force
+        # there (the caller's, unless the nested call attaches its own - an empty dict included - which replace them)
+        nst = case.get("nested")
+        if nst and not out.violations:
+            _nested(out, case, nst, binding_vals)
+        out.nontrivial = len(shapes) >= 2 or mut_kind in ("type-flip", "date-datetime", "naive-aware", "ctx") or bool(nst)
+        out.labels = out.labels + ["fn:" + case["fn"], "npres:%d" % len(case["presentations"])] + \
             (["mut:" + mut_kind] if mut_kind else []) + (["ctx"] if ctx_vals else []) + \
             (["partial"] if any(p.get("partial") for p in case["presentations"]) else []) + \
             (["fnref"] if '"t": "fn"' in core.canon(case["binding"]).replace('":"', '": "') else [])
-        out.nt_key = [case["fn"], _shape(case["binding"]), sorted(shapes), mut_kind, bool(ctx_vals)]
+        out.nt_key = [case["fn"], _shape(case["binding"]), sorted(shapes), mut_kind, bool(ctx_vals), sorted(l for l in out.labels if l.startswith("nested:"))]
         return out
     finally:
         env.rm(d)
+
+
+def _nested(out, case, nst, binding_vals):
+    outer_ctx = None if nst.get("outer_ctx") is None else {k: argspec.build_arg(v) for k, v in nst["outer_ctx"].items()}
+    ov = nst.get("override")  # None = inherit, {} = replace by nothing, {..} = replace
+    ov_vals = None if ov is None else {k: argspec.build_arg(v) for k, v in ov.items()}
+    eff = ov_vals if ov_vals is not None else outer_ctx
+    want = argspec.spec_hash(binding_vals, eff)
+    p = case["presentations"][nst.get("pres", 0) % len(case["presentations"])]
+    _nest_k[0] += 1
+    k = _nest_k[0]
+
+    def thunk():
+        f, pos, kw = _present(case, p, binding_vals, None, attach=False)
+        if ov_vals is not None:
+            f = f.with_context_args(ov_vals)
+        return f(*pos, **kw)
+    rt.TABLE[("nest", k)] = thunk
+    inner = afuncs.FUNCS[case["fn"]]
+    try:
+        outer = afuncs.nest if outer_ctx is None else afuncs.nest.with_context_args(outer_ctx)
+        outer(k)
+        rt.take()
+        mem = outer.memento(k)
+        invs = mem.invocation_metadata.invocations
+        if len(invs) != 1:
+            out.violation("caller recorded %d invocations for one nested call" % len(invs), symptom="nested-invocations")
+            return
+        got = invs[0].arg_hash
+        if got != want:
+            out.violation("nested call (caller context %r, attached %r) was keyed %s; documented key of the binding under the effective context %r is %s" % (
+                outer_ctx, ov_vals, got[:12], eff, want[:12]), symptom="nested-key-differs", attached="none" if ov_vals is None else ("empty" if not ov_vals else "dict"))
+            return
+        # the result of the nested call is the one a direct call under the effective context is served
+        direct = inner.with_context_args(eff) if eff else inner
+        direct(**binding_vals)
+        if rt.take():
+            out.violation("direct call under the effective context %r ran the body again after the nested call" % (eff,),
+                          symptom="nested-result-not-shared")
+        out.labels.append("nested:" + ("inherit" if ov_vals is None else ("empty-override" if not ov_vals else "override")) + ("/ctx" if outer_ctx else "/noctx"))
+    except Exception as e:
+        sig = lib_exception_signature(e)
+        if sig is None:
+            raise
+        out.violation("nested call raised %r" % (e,), symptom="exception", **sig)
+    finally:
+        rt.TABLE.pop(("nest", k), None)
 
 
 def _shape(b):
@@ -276,7 +332,11 @@ def strategy():
                 c2 = dict(ctx or {})
                 c2[draw(st.sampled_from(["tenant", "zz"]))] = draw(A.simple)
                 mutation = {"kind": "ctx", "ctx": c2}
-        return {"fn": fn, "binding": binding, "ctx": ctx, "presentations": pres, "mutation": mutation,
+        nested = None
+        if draw(st.integers(0, 2)) == 0:
+            nested = {"outer_ctx": draw(A.ctx), "override": draw(st.sampled_from(["inherit", "inherit", "empty", "dict"])), "pres": draw(st.integers(0, 3))}
+            nested["override"] = {"inherit": None, "empty": {}, "dict": None}[nested["override"]] if nested["override"] != "dict" else (draw(A.ctx) or {})
+        return {"fn": fn, "binding": binding, "ctx": ctx, "presentations": pres, "mutation": mutation, "nested": nested,
                 "backend": draw(st.sampled_from(["mem", "mem", "fs"]))}
 
     return case()
